@@ -6,7 +6,8 @@
      - how the object list is cut into PrimitiveBlocks and PrimitiveGroups (one type per group),
        nodes plain or dense
      - granularity, lat_offset, lon_offset, date_granularity of each block (a block may only take
-       objects its parameters can represent exactly)
+       objects its parameters can represent exactly); the same arithmetic applies to the node locations
+       a way may carry (Way.lat / Way.lon, "LocationsOnWays": delta coded raw values, parallel to Way.refs)
      - which optional Info / DenseInfo fields are written: "min" leaves out every field that has its
        default value (and the whole Info / DenseInfo message when nothing is left), "all" writes every
        field, "neg" writes version -1 for "no version"
@@ -56,10 +57,13 @@ At(tab, idx) == tab[idx + 1]                                        \* m_stringt
 
 \* a block can carry an object only if its parameters represent the values exactly
 Fits(b, o) == /\ (o.t = "n" /\ o.vis) => ((o.lat * 100 - b.lato) % b.gran = 0 /\ (o.lon * 100 - b.lono) % b.gran = 0)
+              /\ \A j \in 1..Len(o.locs) : (o.locs[j][2] * 100 - b.lato) % b.gran = 0 /\ (o.locs[j][1] * 100 - b.lono) % b.gran = 0
               /\ (o.ts * 1000) % b.dgran = 0
               /\ PbfCarries(o)
-RawLat(b, o) == (o.lat * 100 - b.lato) \div b.gran
-RawLon(b, o) == (o.lon * 100 - b.lono) \div b.gran
+RawLatV(b, lat) == (lat * 100 - b.lato) \div b.gran
+RawLonV(b, lon) == (lon * 100 - b.lono) \div b.gran
+RawLat(b, o) == RawLatV(b, o.lat)
+RawLon(b, o) == RawLonV(b, o.lon)
 RawTs(b, o) == (o.ts * 1000) \div b.dgran
 
 \* ------------------------------------------------------------------ encoder: what is on the wire
@@ -74,6 +78,9 @@ PlainW(b, tab, mode, o) ==
      info |-> InfoW(b, tab, mode, o),
      lat |-> IF o.t = "n" /\ o.vis THEN RawLat(b, o) ELSE 0, lon |-> IF o.t = "n" /\ o.vis THEN RawLon(b, o) ELSE 0,
      refs |-> Deltas(o.refs, 1, 0),
+     \* Way.lat (9) / Way.lon (10): raw values in block units, delta coded along the way; absent when the way has no locations
+     wlats |-> Deltas([j \in 1..Len(o.locs) |-> RawLatV(b, o.locs[j][2])], 1, 0),
+     wlons |-> Deltas([j \in 1..Len(o.locs) |-> RawLonV(b, o.locs[j][1])], 1, 0),
      roles |-> [j \in 1..Len(o.mems) |-> Idx(tab, o.mems[j].role)],
      memids |-> Deltas([j \in 1..Len(o.mems) |-> o.mems[j].ref], 1, 0),
      types |-> [j \in 1..Len(o.mems) |-> o.mems[j].mt]]
@@ -110,14 +117,26 @@ DecInfo(b, tab, w) ==                                  \* decode_info(): fields 
      user |-> IF "u" \in w.has THEN At(tab, w.u) ELSE "", vis |-> IF "d" \in w.has THEN w.d ELSE TRUE]
 Lon(b, raw) == (raw * b.gran + b.lono) \div 100        \* convert_pbf_lon
 Lat(b, raw) == (raw * b.gran + b.lato) \div 100
+Min3(x, y, z) == IF x <= y /\ x <= z THEN x ELSE IF y <= z THEN y ELSE z
+\* decode_way(): no lat array -> references only; else the three delta registers run in parallel as long as all arrays
+\* have elements, the raw running SUMS are converted (the conversion is affine, it does not commute with the sum)
+DecWayLocs(b, w) ==
+    IF w.wlats = <<>> THEN <<>>
+    ELSE LET lats == Undelta(w.wlats, 1, 0)
+             lons == Undelta(w.wlons, 1, 0)
+         IN [j \in 1..Min3(Len(w.refs), Len(lats), Len(lons)) |-> <<Lon(b, lons[j]), Lat(b, lats[j])>>]
 DecPlain(b, tab, t, w) ==
     LET inf == DecInfo(b, tab, w.info)
         refs == Undelta(w.memids, 1, 0)
-    IN Obj(t, w.id, inf.v, inf.vis, inf.cs, inf.ts, inf.uid, inf.user,
+        locs == IF t = "w" THEN DecWayLocs(b, w) ELSE <<>>
+        wrefs == IF t # "w" THEN <<>> ELSE IF w.wlats = <<>> THEN Undelta(w.refs, 1, 0) ELSE SubSeq(Undelta(w.refs, 1, 0), 1, Len(locs))
+    IN [
+       Obj(t, w.id, inf.v, inf.vis, inf.cs, inf.ts, inf.uid, inf.user,
            IF t = "n" /\ inf.vis THEN Lon(b, w.lon) ELSE NoCoord, IF t = "n" /\ inf.vis THEN Lat(b, w.lat) ELSE NoCoord,
            [j \in 1..Len(w.keys) |-> <<At(tab, w.keys[j]), At(tab, w.vals[j])>>],
-           IF t = "w" THEN Undelta(w.refs, 1, 0) ELSE <<>>,
+           wrefs,
            IF t = "r" THEN [j \in 1..Len(refs) |-> [mt |-> w.types[j], ref |-> refs[j], role |-> At(tab, w.roles[j])]] ELSE <<>>)
+       EXCEPT !.locs = locs]
 RECURSIVE ParseKV(_, _, _)                             \* build_tag_list_from_dense_nodes: pairs until a 0 KEY
 ParseKV(tab, kv, p) == IF p > Len(kv) THEN [tags |-> <<>>, p |-> p]
                        ELSE IF kv[p] = 0 THEN [tags |-> <<>>, p |-> p + 1]
